@@ -716,7 +716,7 @@ func TestC19(t *testing.T) {
 	oldNow, oldRand := saml.TimeNow, saml.RandReader
 	defer func() { saml.TimeNow, saml.RandReader = oldNow, oldRand }()
 	saml.TimeNow = goroutineNow
-	saml.RandReader = &safeRand{r: newRand("c19rand")}
+	saml.RandReader = &safeRand{r: newRand("c19rand"), n: 64} // session IDs with + and / as the server really draws them
 
 	// graph
 	type node struct {
@@ -893,6 +893,55 @@ func TestC19(t *testing.T) {
 						replay(map[string]any{"live_probe": pl, "fresh_probe": pf, "live_registered": liveReg}))
 					return
 				}
+				// a service the history unregistered (in a request answered as the reference model does) obtains
+				// nothing any more: the probe with a live session cookie must not yield an assertion towards it
+				if real.Reply == ed.Reply && ck != "" {
+					regNow := map[string]bool{}
+					for _, e := range ed.To.regSet() {
+						regNow[e] = true
+					}
+					for _, pr := range pl {
+						if pr.Kind == "assertion" && !regNow[pr.Aud] {
+							rep.Violation(key+":unregistered", fmt.Sprintf("after this request (answered %d, as the reference model does) the services registered are %v, yet a request with a valid session obtains an assertion towards %s", real.Reply.Status, ed.To.regSet(), pr.Aud),
+								replay(map[string]any{"probe": pr, "live_registered": liveReg}))
+							return
+						}
+					}
+				}
+				// what the history revoked stays revoked: the request was answered as the reference model says
+				// (e.g. 204 to DELETE /sessions/{id}), so the reference state after it is what the history means;
+				// a session cookie that this state no longer entitles must not obtain an assertion any more
+				if real.Reply == ed.Reply {
+					for k := 1; k <= nslots; k++ {
+						id, known := env.snap.slot[k]
+						if !known || k > len(ed.To.Sessions) {
+							continue
+						}
+						if ms := ed.To.Sessions[k-1]; ms.User != "" && ms.Age < 3 {
+							continue // still entitled
+						}
+						for _, pr := range c19Probe(env.srv, env.now, "session="+id, eids, scDom) {
+							if pr.Kind == "assertion" {
+								rep.Violation(key+":revoked", fmt.Sprintf("after this request (answered %d, as the reference model does) the session in slot %d is deleted or expired, yet its cookie still obtains an assertion (for %s)", real.Reply.Status, k, pr.Aud),
+									replay(map[string]any{"slot": k, "probe": pr}))
+								return
+							}
+						}
+					}
+				}
+				// ... and so do credentials: after a user was deleted, or the password replaced, in a request the
+				// server answered as the reference model does, the previous password must not open a session
+				if real.Reply == ed.Reply && (ed.Act.N == "DeleteUser" || (ed.Act.N == "PutUser" && ed.Act.Pw != "keep")) {
+					old := ed.From.Users[ed.Act.U].Pw
+					if (old == "p1" || old == "e") && ed.To.Users[ed.Act.U].Pw != old {
+						penv := c19Restore(&c19Snap{data: env.store.clone(), slot: env.snap.slot, ticks: env.snap.ticks})
+						if pr := penv.do(c19Act{N: "Login", U: ed.Act.U, Pw: old}, 0, ""); pr.SetCookie != "" || pr.Reply.Kind == "json" {
+							rep.Violation(key+":revoked-password", fmt.Sprintf("after this request (answered %d, as the reference model does) user %s has %s, yet the previous password still opens a session", real.Reply.Status, ed.Act.U,
+								map[bool]string{true: "been deleted", false: "another password"}[ed.Act.N == "DeleteUser"]), replay(map[string]any{"probe": pr.Reply}))
+							return
+						}
+					}
+				}
 				// conformance with the model's prediction (drift only)
 				want := ed.To
 				if real.Reply != ed.Reply {
@@ -1060,7 +1109,7 @@ func TestC19Random(t *testing.T) {
 	oldNow, oldRand := saml.TimeNow, saml.RandReader
 	defer func() { saml.TimeNow, saml.RandReader = oldNow, oldRand }()
 	saml.TimeNow = goroutineNow
-	saml.RandReader = &safeRand{r: newRand("c19random-rand")}
+	saml.RandReader = &safeRand{r: newRand("c19random-rand"), n: 64}
 	users, svcs, eids, pws := []string{"u1", "u2"}, []string{"s1", "s2"}, []string{"e1", "e2"}, []string{"p1", "e", "p1", "e", "L2"}
 	const maxSess = 2
 	type line struct {
